@@ -18,9 +18,10 @@ BOUNDS = {
     "quick": {"families": "F1 node lemmas over children A (all share x; extra variables a_i,b_i) and V, DAG sharing (same node under two "
               "parents), products of 3-4 possibly-zero factors, stratified F2, symbolic base/constants, warm caches, both entry points",
               "outside": "deeper trees, n>7, arity>4, rounding size, overflow/underflow"},
-    "thorough": {"families": "as quick with n<=7, arity<=4, all F2, F3 chains (every third), seeded F5",
+    "thorough": {"families": "as quick with n<=7, arity<=4, every 2nd F2 tree, F3 chains (every third), seeded F5",
                  "outside": "deeper trees, n>7, arity>4, rounding size, overflow/underflow"},
 }
+OPTS = {"quick": {"timeout_ms": 10000}, "thorough": {"timeout_ms": 20000, "job_budget_s": 120}}
 ASSUMPTIONS = ["the reference derivative is a textbook differentiator over the denotation term (validated against sympy and finite differences at self-test)"]
 
 
@@ -54,7 +55,7 @@ def jobs(tier, seed):
     add(["Multiply", fam.C(1), fam.A(1), fam.C(2)])
     add(["Power", fam.C(1), fam.A(1)])
     add(["Power", fam.A(1), fam.C(1)])
-    f2 = fam.f2_quick(6, 3) if tier == "quick" else fam.f2("thorough")
+    f2 = fam.f2_quick(6, 3) if tier == "quick" else fam.f2("thorough")[::2]
     for d in f2:
         add(d)
     for d in f2[::13]:
